@@ -41,6 +41,27 @@ Scope
     fit(n_iter=n) as a function of n) but is verified anyway: same seed and n_iter give bit-identical w, and the k-th
     value returned by the (private, only observed) _w_update of an 8-iteration run divided by C equals fit(n_iter=k).
 
+(R) ONE model object used for several hypergraphs (the statement quantifies over every incidence matrix / hypergraph passed,
+    not over "the first one a model object sees"), seeded random, numeric, tolerance as in (N):
+      * reuse (150 quick / 1500 thorough sequences): two models with supplied u, w (N in 3..6/7, K <= 3, zeros as in (N)) are
+        alive together; hyperedge lists A and B with the SAME number of nodes and hyperedges (B random / same sizes column by
+        column / a column permutation of A / A with one column replaced; both orders A-B and B-A) and C (one hyperedge more
+        or less), sizes 1..N.  16 steps per sequence - m1:A, m1:B, m2:B, m1:statistics, m1:A, m2:A, m1:C, m1:B, ... then 6
+        seeded steps - each passing the list as dense ndarray / csr_array / coo_array / binary_incidence_matrix(Hypergraph)
+        (one format for the whole sequence or a fresh one per step).  EVERY answer of poisson_params is compared with the
+        sum over the node pairs for the matrix passed in that very call (for a matrix built by the library the hyperedges
+        are read off the matrix, so no row / column order is assumed); "statistics" = expected_degree (per node, average;
+        d = "all" and one size), degree_sequence / dimension_sequence (expected=True) against the sums over all subsets.
+      * refit (90 quick / 900 thorough): one model (u supplied / w supplied / nothing supplied; K in {2,3}; assortative or
+        not; prior rates; max_hye_size = N; weighted or not; int / shifted / string labels, isolated nodes) :
+        fit(A, n_iter in 1..4), questions B, A, statistics, B, C, A, then fit(B) on the same object, questions A, B,
+        statistics, (log_likelihood(A): history only, value not checked), B, A.  After each fit the clauses of fit()
+        (supplied parameters bit-identical, shapes, finite, non-negative, symmetric / diagonal); every answer against the
+        definition evaluated for the u, w the model holds at that moment (read through the attributes u, w) and for the
+        hypergraph actually passed.  A second fit of an object whose w is already set infers nothing on this tree; the
+        statement makes no claim about that, so only the clauses above are evaluated for it.
+    This exposes results memoised per model object and validated by object identity / matrix shape only.
+
 Oracle: plain Python / sympy brute force over all subsets, written from the statement; the implementation is observed
 through its public methods (plus the two private constants and _linear_ops named in the property's anchors).
 
@@ -48,6 +69,9 @@ Known limits
 ------------
 * Shapes of (S) are bounded; floating-point evaluation of the closed forms is only sampled (N).
 * Rows of u are matched to nodes through Hypergraph.get_mapping() (public), as fit() does.
+* (R) samples call sequences of length <= 16 on at most two live objects; state that only goes stale after longer
+  histories, after the caller mutates / reassigns u or w by hand, or across processes is not exercised.  The ascent clause
+  cannot be evaluated on a reused object (w is no longer inferred once it is set), it stays with fresh objects in (B).
 * fit() on this tree infers max_hye_size = 2 for every hypergraph when it is not supplied (it iterates over
   (edge, id) pairs).  The statement has no clause about the inferred maximum size, so nothing is checked there; the
   ascent clause with a prior is skipped for max_hye_size=None because the objective's scale depends on that value.
@@ -858,8 +882,378 @@ def _run_fit(ctx, cfg):
 
 
 # --------------------------------------------------------------------------------------------------------------
+# (R) one model object, several hypergraphs
+# --------------------------------------------------------------------------------------------------------------
+REUSED = " (model object already used for another hypergraph)"
+
+
+def _edge_lists(N, E, relation, hseed, dmin):
+    """Three lists of distinct hyperedges (sorted index tuples) on N nodes: A and B have E hyperedges each and differ as
+    lists, C has E-1 or E+1."""
+    import random
+    R = random.Random(hseed)
+    pool = _subsets(N, dmin)
+    A = R.sample(pool, E)
+    B = None
+    if relation == "permuted columns" and E >= 2:
+        k = R.randint(1, E - 1)
+        B = A[k:] + A[:k]
+    elif relation == "one column differs":
+        B = list(A)
+        B[R.randrange(E)] = R.choice([e for e in pool if e not in A])
+    elif relation == "same sizes":
+        for _ in range(20):
+            cand = [tuple(sorted(R.sample(range(N), len(e)))) for e in A]
+            if cand != A and len(set(cand)) == E:
+                B = cand
+                break
+    while B is None or B == A:
+        B = R.sample(pool, E)
+    C = R.sample(pool, E + 1 if (E == 1 or R.random() < 0.5) else E - 1)
+    return A, B, C
+
+
+def _labelled_hypergraph(Hypergraph, N, edges, labels, weights=None):
+    lab = {"int": lambda i: i, "shifted": lambda i: 10 + 3 * i, "str": lambda i: "n" + chr(ord("g") - i)}[labels]
+    es = [tuple(lab(i) for i in e) for e in edges]
+    H = Hypergraph(es) if weights is None else Hypergraph(es, weighted=True, weights=list(weights))
+    covered = {i for e in edges for i in e}
+    for i in range(N):
+        if i not in covered:
+            H.add_node(lab(i))
+    return H
+
+
+def _columns(np, B):
+    """The hyperedges an incidence matrix describes, read off the matrix itself: per column the sorted row indices."""
+    M = np.asarray(B.todense() if hasattr(B, "todense") else B)
+    return [tuple(int(i) for i in np.nonzero(M[:, j])[0]) for j in range(M.shape[1])]
+
+
+class _Reused:
+    """One live model object and the brute-force definitions for ITS current parameters (read through the public
+    attributes u, w).  Every question asked is appended to `history`, which is part of the reported input."""
+
+    def __init__(self, ctx, np, sp, m, N, D, tag, desc, rp, history):
+        self.ctx, self.np, self.sp, self.m, self.N, self.D, self.tag = ctx, np, sp, m, N, D, tag
+        self.desc, self.rp, self.history = desc, rp, history
+        self.valid = False
+        self.refresh()
+
+    def refresh(self):
+        np, N = self.np, self.N
+        try:
+            u, w = np.asarray(self.m.u, dtype=float), np.asarray(self.m.w, dtype=float)
+        except Exception:
+            self.valid = False
+            return
+        self.valid = bool(u.ndim == 2 and u.shape[0] == N and w.shape == (u.shape[1], u.shape[1])
+                          and np.all(np.isfinite(u)) and np.all(np.isfinite(w)))
+        if not self.valid:
+            return
+        K = u.shape[1]
+        g = [[sum(float(u[i, k]) * float(w[k, q]) * float(u[j, q]) for k in range(K) for q in range(K))
+              for j in range(N)] for i in range(N)]
+        # w is symmetric by the statement (after fit: up to rounding), so u_i^T w u_j is taken as the mean of both orders
+        self.G = [[0.5 * (g[i][j] + g[j][i]) for j in range(N)] for i in range(N)]
+        self.alg = _Algebra("num", np, self.sp, scale=max(abs(x) for row in self.G for x in row))
+        self.lam_all = {e: self.lam(e) for e in _subsets(N)}
+        self.lam_scale = max([abs(v) for v in self.lam_all.values()] + [1e-300])
+        self.kap = {d: _kappa_def(N, d) for d in range(2, N + 1)}
+
+    def lam(self, e):
+        return sum(self.G[i][j] for i, j in itertools.combinations(e, 2))
+
+    def _inp(self, **kw):
+        return dict(self.desc, model=self.tag, history=list(self.history), **kw)
+
+    def _guard(self, function, thunk, inp):
+        try:
+            return True, thunk()
+        except Exception as e:      # noqa: BLE001
+            self.ctx.check(False, function, RAISES, dict(inp, error=_exc(e)), key=_raise_key(function, e), replay=self.rp)
+            return False, None
+
+    def ask_poisson(self, name, fmt, B, edges):
+        """poisson_params(B) against the definition for the hyperedges B describes (edges: index tuples per column)."""
+        fn = "HyMMSBM.poisson_params"
+        self.history.append("%s.poisson_params(%s as %s)" % (self.tag, name, fmt))
+        if not self.valid:
+            return
+        inp = self._inp(hyperedges=[list(e) for e in edges], incidence=fmt)
+        ok, lams = self._guard(fn, lambda: self.m.poisson_params(B), inp)
+        if not ok:
+            return
+        good, bad = True, None
+        if getattr(lams, "shape", None) != (len(edges),):
+            good, bad = False, ("shape", getattr(lams, "shape", None))
+        else:
+            for j, e in enumerate(edges):
+                c, dev = self.alg.close(lams[j], self.lam(e), self.lam_scale)
+                if not c:
+                    good, bad = False, dict(column=j, hyperedge=list(e), expected=self.lam(e), observed=self.alg.show(lams[j]),
+                                            deviation=dev)
+                    break
+        self.ctx.check(good, fn, "equals the sum over the node pairs of u_i^T w u_j" + REUSED, inp, observed=bad,
+                       replay=self.rp)
+
+    def _vector(self, function, clause, inp, observed, expected):
+        good, bad = True, None
+        if getattr(observed, "shape", None) != (len(expected),):
+            good, bad = False, ("shape", getattr(observed, "shape", None))
+        else:
+            sc = max([abs(x) for x in expected] + [1e-300])
+            for i, x in enumerate(expected):
+                c, dev = self.alg.close(observed[i], x, sc)
+                if not c:
+                    good, bad = False, dict(index=i, expected=x, observed=self.alg.show(observed[i]), deviation=dev)
+                    break
+        self.ctx.check(good, function, clause + REUSED, inp, observed=bad, replay=self.rp)
+
+    def ask_statistics(self, dsel):
+        """The expected statistics (independent of any hypergraph) against the sums over ALL possible hyperedges."""
+        self.history.append("%s.expected statistics(d=all,%d)" % (self.tag, dsel))
+        if not self.valid:
+            return
+        m, N, D, kap, lam_all = self.m, self.N, self.D, self.kap, self.lam_all
+
+        def per_node(sizes):
+            return [sum(lam_all[e] / kap[len(e)] for e in lam_all if len(e) in sizes and i in e) for i in range(N)]
+
+        every = set(range(2, D + 1))
+        for dd, sizes in (("all", every), (dsel, {dsel})):
+            inp = self._inp(d=dd, per_node=True)
+            exp = per_node(sizes)
+            ok, obs = self._guard("HyMMSBM.expected_degree", lambda: m.expected_degree(per_node=True, d=dd), inp)
+            if ok:
+                self._vector("HyMMSBM.expected_degree", "per node: sum over the hyperedges containing the node of lambda/kappa",
+                             inp, obs, exp)
+            inp = self._inp(d=dd, per_node=False)
+            ok, obs = self._guard("HyMMSBM.expected_degree", lambda: m.expected_degree(per_node=False, d=dd), inp)
+            if ok:
+                avg = sum(exp) / N
+                c, dev = self.alg.close(obs, avg)
+                self.ctx.check(c, "HyMMSBM.expected_degree",
+                               "average: mean over the nodes of the per-node expected degree" + REUSED, inp, expected=avg,
+                               observed=self.alg.show(obs), replay=self.rp)
+        inp = self._inp(include_dyadic=True, expected=True)
+        ok, obs = self._guard("HyMMSBM.degree_sequence", lambda: m.degree_sequence(include_dyadic=True, expected=True), inp)
+        if ok:
+            self._vector("HyMMSBM.degree_sequence",
+                         "expected: per node, sum over the hyperedges (of the included sizes) containing it of lambda/kappa",
+                         inp, obs, per_node(every))
+        ok, obs = self._guard("HyMMSBM.dimension_sequence",
+                              lambda: m.dimension_sequence(include_dyadic=True, expected=True), inp)
+        if ok:
+            good, bad = isinstance(obs, dict), None
+            if good:
+                got = {int(k): v for k, v in obs.items()}
+                if not set(got) <= every:
+                    good, bad = False, dict(sizes_reported=sorted(got), sizes_allowed=sorted(every))
+                for d in sorted(every):
+                    if not good:
+                        break
+                    s = sum(lam_all[e] / kap[d] for e in lam_all if len(e) == d)
+                    c, dev = self.alg.close(got.get(d, 0), s, self.lam_scale)
+                    if not c:
+                        good, bad = False, dict(size=d, expected=s, observed=self.alg.show(got.get(d, 0)), deviation=dev)
+            else:
+                bad = repr(obs)[:200]
+            self.ctx.check(good, "HyMMSBM.dimension_sequence",
+                           "expected: per size, sum over the hyperedges of that size of lambda/kappa" + REUSED, inp,
+                           observed=bad, replay=self.rp)
+
+
+FORMATS = ("dense", "scipy csr_array", "coo_array from hye_list_to_binary_incidence", "binary_incidence_matrix(Hypergraph)")
+
+
+def _make_incidence(np, sparse, Hypergraph, to_coo, fmt, edges, N, labels):
+    """(matrix, hyperedges per column).  For the matrix the library builds from a Hypergraph the hyperedges are read off
+    the matrix itself, so no column / row order is assumed."""
+    if fmt == "binary_incidence_matrix(Hypergraph)" and all(len(e) >= 2 for e in edges):
+        from hypergraphx.linalg.linalg import binary_incidence_matrix
+        B = binary_incidence_matrix(_labelled_hypergraph(Hypergraph, N, edges, labels))
+        return fmt, B, _columns(np, B)
+    if fmt.startswith("coo") or fmt.startswith("binary"):
+        return FORMATS[2], to_coo([tuple(e) for e in edges], shape=(N, len(edges))), list(edges)
+    B = np.zeros((N, len(edges)), dtype=int)
+    for j, e in enumerate(edges):
+        for i in e:
+            B[i, j] = 1
+    return (fmt, B if fmt == "dense" else sparse.csr_array(B), list(edges))
+
+
+def _run_reuse(ctx, desc):
+    """Two models with supplied parameters, alive together; hypergraphs A, B (same numbers of nodes and hyperedges) and C
+    are passed to them one after the other, in a seeded order and in seeded matrix formats, interleaved with the expected
+    statistics.  Every single answer is compared with the definition for the matrix passed in THAT call."""
+    import random
+    np, sp, sparse, Hypergraph, HyMMSBM, lin, to_coo = _imports()
+    N, D, E = desc["N"], desc["D"], desc["E"]
+    rp = dict(part="reuse", **desc)
+    A, B, C = _edge_lists(N, E, desc["relation"], desc["hseed"], 1)
+    if desc["order"] == "BA":
+        A, B = B, A
+    lists = dict(A=A, B=B, C=C)
+    R = random.Random(desc["hseed"] * 31 + 7)
+    history = []
+    models = []
+    for t in (0, 1):
+        u, w = _numeric_params(np, dict(desc, pseed=desc["pseed"] * 2 + t))
+        try:
+            m = HyMMSBM(u=u.copy(), w=w.copy(), max_hye_size=D)
+        except Exception as e:      # noqa: BLE001
+            ctx.check(False, "HyMMSBM.__init__", RAISES, dict(desc, error=_exc(e)), key=_raise_key("HyMMSBM.__init__", e), replay=rp)
+            return
+        models.append(_Reused(ctx, np, sp, m, N, D, "m%d" % (t + 1), dict(desc, A=A, B=B, C=C), rp, history))
+    # a fixed skeleton (A, B, A on the first model; the second model interleaved) followed by seeded steps
+    steps = [(0, "A"), (0, "B"), (1, "B"), (0, "stats"), (0, "A"), (1, "A"), (0, "C"), (0, "B"), (1, "stats"), (1, "B")]
+    steps += [(R.randrange(2), R.choice(["A", "B", "A", "B", "C", "stats"])) for _ in range(6)]
+    same_format = R.random() < 0.5
+    fmt0 = R.choice(FORMATS)
+    for who, what in steps:
+        mod = models[who]
+        if what == "stats":
+            mod.ask_statistics(R.randint(2, D))
+        else:
+            fmt = fmt0 if same_format else R.choice(FORMATS)
+            fmt, M, cols = _make_incidence(np, sparse, Hypergraph, to_coo, fmt, lists[what], N, desc["labels"])
+            mod.ask_poisson(what, fmt, M, cols)
+
+
+def _run_refit(ctx, cfg):
+    """ONE model object: fit(A), questions about B and A, fit(B), the same questions again (A, B: same node set, same
+    number of hyperedges).  After every fit the clauses of fit() (supplied parameters untouched, finite, non-negative,
+    symmetric / diagonal); every answer against the definition for the model's current u, w and the matrix passed."""
+    np, sp, sparse, Hypergraph, HyMMSBM, lin, to_coo = _imports()
+    from hypergraphx.linalg.linalg import binary_incidence_matrix
+    fn = "HyMMSBM.fit"
+    N, E, K, ass, mode, n = cfg["N"], cfg["E"], cfg["K"], cfg["assortative"], cfg["mode"], cfg["n_iter"]
+    rp = dict(part="refit", **cfg)
+    A, B, C = _edge_lists(N, E, cfg["relation"], cfg["hseed"], 2)
+    if cfg["order"] == "BA":
+        A, B = B, A
+    rng = np.random.default_rng([cfg["hseed"], 153])
+    wts = {k: ([int(x) for x in rng.integers(1, 5, size=len(v))] if cfg["weighted"] else None)
+           for k, v in (("A", A), ("B", B), ("C", C))}
+    lists = dict(A=A, B=B, C=C)
+    graphs = {k: _labelled_hypergraph(Hypergraph, N, lists[k], cfg["labels"], wts[k]) for k in lists}
+    inp = dict(cfg, A=A, B=B, C=C, weights=wts)
+
+    u0 = w0 = None
+    if mode == "u":
+        u0 = _supplied_u(np, N, K, cfg["pseed"], False)
+    if mode == "w":
+        w0 = np.random.default_rng([cfg["pseed"], 152]).random((K, K)) + 0.1
+        w0 = np.triu(w0) + np.triu(w0, 1).T
+        if ass:
+            w0 = np.diag(np.diag(w0))
+    uu = None if u0 is None else u0.copy()
+    ww = None if w0 is None else w0.copy()
+    try:
+        m = HyMMSBM(K=K, u=uu, w=ww, assortative=ass, max_hye_size=N, u_prior=cfg["u_prior"], w_prior=cfg["w_prior"],
+                    seed=cfg["seed"])
+    except Exception as e:      # noqa: BLE001
+        ctx.check(False, "HyMMSBM.__init__", RAISES, dict(inp, error=_exc(e)), key=_raise_key("HyMMSBM.__init__", e), replay=rp)
+        ctx.case(dict(part="RF", **cfg), nontrivial=False)
+        return
+    history = []
+    mod = None
+
+    def do_fit(name):
+        history.append("m.fit(%s, n_iter=%d)" % (name, n))
+        i2 = dict(inp, history=list(history))
+        try:
+            m.fit(graphs[name], n_iter=n)
+        except Exception as e:      # noqa: BLE001
+            ctx.check(False, fn, RAISES, dict(i2, error=_exc(e)), key=_raise_key(fn, e), replay=rp)
+            return False
+        what = []
+        if u0 is not None and not (m.u is not None and np.array_equal(np.asarray(m.u), u0) and np.array_equal(uu, u0)):
+            what.append("u")
+        if w0 is not None and not (m.w is not None and np.array_equal(np.asarray(m.w), w0) and np.array_equal(ww, w0)):
+            what.append("w")
+        for nm, val in (("K", K), ("assortative", ass), ("u_prior", cfg["u_prior"]), ("w_prior", cfg["w_prior"]),
+                        ("max_hye_size", N)):
+            got = getattr(m, nm, None)
+            if not (type(got) in (type(val), np.bool_) and got == val):
+                what.append(nm)
+        ctx.check(not what, fn, "parameters supplied at construction are unchanged" + (REUSED if len(history) > 1 else ""), i2,
+                  observed=what, replay=rp)
+        ok_shape = getattr(m.u, "shape", None) == (N, K) and getattr(m.w, "shape", None) == (K, K)
+        ctx.check(ok_shape, fn, "u is N x K and w is K x K afterwards", i2,
+                  observed=[getattr(m.u, "shape", None), getattr(m.w, "shape", None)], replay=rp)
+        if ok_shape:
+            _param_clauses(ctx, np, m, i2, rp, ass)
+        return ok_shape
+
+    def questions(order):
+        mod.refresh()
+        for k, name in enumerate(order):
+            if name == "stats":
+                mod.ask_statistics(2 + (cfg["hseed"] + k) % (N - 1))
+                continue
+            if name == "loglik":
+                # not a clause of the statement: only part of the history (it evaluates the Poisson parameters of A)
+                history.append("m.log_likelihood(A)  [value not checked]")
+                try:
+                    m.log_likelihood(graphs["A"])
+                except Exception:       # noqa: BLE001
+                    pass
+                continue
+            if k % 2 == 0:
+                M = binary_incidence_matrix(graphs[name])
+                mod.ask_poisson(name, FORMATS[3], M, _columns(np, M))
+            else:
+                fmt, M, cols = _make_incidence(np, sparse, Hypergraph, to_coo, FORMATS[(cfg["hseed"] + k) % 3], lists[name], N,
+                                               cfg["labels"])
+                mod.ask_poisson(name, fmt, M, cols)
+
+    if not do_fit("A"):
+        ctx.case(dict(part="RF", **cfg), nontrivial=False)
+        return
+    mod = _Reused(ctx, np, sp, m, N, N, "m", dict(cfg, A=A, B=B, C=C, weights=wts), rp, history)
+    ctx.case(dict(part="RF", **cfg), nontrivial=mod.valid)
+    questions(["B", "A", "stats", "B", "C", "A"])
+    if not do_fit("B"):
+        return
+    questions(["A", "B", "stats", "loglik", "B", "A"])
+
+
+# --------------------------------------------------------------------------------------------------------------
 # plans
 # --------------------------------------------------------------------------------------------------------------
+def _reuse_plan(quick, seed):
+    import random
+    R = random.Random(seed * 6007 + 1515)
+    plan = []
+    for i in range(150 if quick else 1500):
+        N = R.randint(3, 6 if quick else 7)
+        plan.append(dict(N=N, K=R.randint(1, 3), w=R.choice(["full", "diagonal"]), D=R.randint(2, N),
+                         E=R.randint(1, 2 if N == 3 else 6), scale=R.choice([0.01, 1.0, 30.0]),
+                         relation=R.choice(["random", "same sizes", "permuted columns", "one column differs"]),
+                         order=R.choice(["AB", "BA"]), labels=R.choice(["int", "shifted", "str"]),
+                         pseed=seed * 100000 + i, hseed=seed * 100000 + 50000 + i))
+    return plan
+
+
+def _refit_plan(quick, seed):
+    import random
+    R = random.Random(seed * 6011 + 1516)
+    plan = []
+    for i in range(90 if quick else 900):
+        mode = ("u", "w", "none")[i % 3]
+        up, wp = R.choice([(0.0, 0.0), (0.0, 1.0), (0.5, 0.0)])
+        if mode == "u":
+            up = 0.0
+        plan.append(dict(N=R.randint(4, 6), E=R.randint(2, 6), K=R.randint(2, 3), assortative=R.random() < 0.5, mode=mode,
+                         n_iter=R.randint(1, 4), u_prior=up, w_prior=wp, weighted=R.random() < 0.5,
+                         relation=R.choice(["random", "same sizes", "permuted columns", "one column differs"]),
+                         order=R.choice(["AB", "BA"]), labels=R.choice(["int", "shifted", "str"]),
+                         seed=seed * 1000 + i, pseed=seed * 1000 + i, hseed=seed * 100000 + 70000 + i))
+    return plan
+
+
 def _symbolic_plan(quick):
     Ns = range(2, 5) if quick else range(2, 7)
     Ks = (1, 2) if quick else (1, 2, 3)
@@ -925,8 +1319,10 @@ def _run(ctx):
     ctx = _Dedup(ctx)
     ctx.rule("(S) every shape N<=%d, K, w full/diagonal, D<=N: real closed forms on symbolic object arrays vs. brute force over "
              "all subsets; (N) seeded random numeric parameters with zeros, dense/csr/coo incidence; (B) 7 hypergraphs x seeds x "
-             "K x assortative x prior rate x max_hye_size, fit with n_iter=1..8. A case is non-trivial if the model could be "
-             "built / fit returned (a skipped or raising case is trivial)." % (4 if ctx.quick else 6))
+             "K x assortative x prior rate x max_hye_size, fit with n_iter=1..8; (R) seeded sequences of poisson_params / expected "
+             "statistics / fit on ONE model object for hypergraphs A, B with equal numbers of nodes and hyperedges (and C), "
+             "each answer against the definition for the hypergraph passed. A case is non-trivial if the model could be "
+             "built / fit returned finite parameters (a skipped or raising case is trivial)." % (4 if ctx.quick else 6))
     ctx.assume("sympy expansion and coefficient extraction; arithmetic on symbolic entries is real arithmetic")
     ctx.assume("coefficient / relative tolerance 1e-9 for 'equal', -1e-12 for non-negativity")
     ctx.assume("'x > 0' on a symbolic expected count is decided for generic strictly positive parameters")
@@ -947,9 +1343,16 @@ def _run(ctx):
     t_n = ctx.elapsed()
     for cfg in _fit_plan(ctx.quick, ctx.seed):
         _run_fit(ctx, cfg)
+    t_f = ctx.elapsed()
+    for desc in _reuse_plan(ctx.quick, ctx.seed):
+        ctx.case(dict(part="R", **desc))
+        _run_reuse(ctx, desc)
+    for cfg in _refit_plan(ctx.quick, ctx.seed):
+        _run_refit(ctx, cfg)
     ctx.count("seconds symbolic", round(t_s, 1))
     ctx.count("seconds numeric", round(t_n - t_s, 1))
-    ctx.count("seconds fit", round(ctx.elapsed() - t_n, 1))
+    ctx.count("seconds fit", round(t_f - t_n, 1))
+    ctx.count("seconds reuse of one model object", round(ctx.elapsed() - t_f, 1))
     a, b = ctx.counters.get("fit: same seed and n_iter give bit-identical w", 0), ctx.counters.get("fit: determinism comparisons", 0)
     if a != b:
         ctx.assume("WARNING: fit with equal seed was not reproducible in %d of %d comparisons" % (b - a, b))
@@ -970,6 +1373,10 @@ def replay(data):
             warnings.simplefilter("ignore")
             if part == "fit":
                 _run_fit(col, data)
+            elif part == "reuse":
+                _run_reuse(col, data)
+            elif part == "refit":
+                _run_refit(col, data)
             elif part == "quantities":
                 carrier = data.pop("carrier", "numeric")
                 (_run_symbolic if carrier == "symbolic" else _run_numeric)(col, data)
